@@ -53,6 +53,62 @@ ALLOW = {
 OVERLAYS = ('K2b',)
 
 
+def id_hex_rules(chk, P, prefix, span_only=False):
+    """Hex codec of trace/span ids (and trace flags): compiler-evaluated tables are mutual inverses, both cases accepted, 0xff exactly
+    for non-hex bytes, and the decoders test the sentinel.  Shared with C04 (incoming ids given as hex strings)."""
+    def table(path):
+        c = P.consts.get(path)
+        if c is None or "v" not in c or "bytes" not in c["v"]:
+            raise mir.AnchorMissing("evaluated constant table %s" % path)
+        return c["v"]["bytes"]
+
+    def hex_tables(enc_p, dec_p, shl_p=None):
+        def f():
+            enc, dec = table(enc_p), table(dec_p)
+            if len(enc) != 16 or len(dec) != 256:
+                return False, "unexpected table sizes %d/%d" % (len(enc), len(dec)), [], None
+            for i in range(16):
+                if dec[enc[i]] != i:
+                    return False, "decode[encode[%d]] = %d: the hex tables are not inverse" % (i, dec[enc[i]]), [], None
+            if bytes(enc) != b"0123456789abcdef":
+                return False, "encode table is %r, not lower-case hex" % bytes(enc), [], None
+            for cch in range(256):
+                ch = chr(cch)
+                want = int(ch, 16) if ch in "0123456789abcdefABCDEF" else 0xff
+                if dec[cch] != want:
+                    return False, "decode[%r] = %d, expected %d (0xff exactly for non-hex bytes, both cases accepted)" % (ch, dec[cch], want), [], None
+            if shl_p:
+                shl = table(shl_p)
+                for i in range(16):
+                    if shl[i] != (i << 4):
+                        return False, "SHL4[%d] = %d, expected %d" % (i, shl[i], i << 4), [], None
+            return True, "", [enc_p, dec_p]
+        return f
+    chk.ob("%s.R2:hex-tables:emit::span" % prefix, "trace/span id hex tables: decode inverts encode, 0xff exactly for non-hex, nibble shift table exact",
+           hex_tables("emit::span::HEX_ENCODE_TABLE", "emit::span::HEX_DECODE_TABLE", "emit::span::SHL4_TABLE"))
+    if not span_only:
+      chk.ob("%s.R2:hex-tables:TraceFlags" % prefix, "trace flags hex tables: decode inverts encode, 0xff exactly for non-hex",
+             hex_tables("emit_traceparent::TraceFlags::to_hex::HEX_ENCODE_TABLE", "emit_traceparent::TraceFlags::try_from_hex_slice::HEX_DECODE_TABLE"))
+
+    def hex_use(key, n):
+        def f():
+            b = P.body(key)
+            # the sentinel test: (h1 | h2) == 0xff -> Err
+            ok = False
+            for bb, t in b.switches():
+                so = b.switch_origin(bb)
+                if so[0] == "binop" and so[1] == "Eq" and mir.o_const_value(so[3]) == 0xff and so[2][0] == "binop" and so[2][1] == "BitOr":
+                    ok = True
+            if not ok:
+                return False, "the 0xff sentinel of the decode table is not checked (an invalid hex digit would be accepted)", [], b.span
+            return True, "", [b.span]
+        return f
+    chk.ob("%s.R2:sentinel:TraceId" % prefix, "an invalid hex digit is rejected through the 0xff sentinel", hex_use("emit::span::TraceId::try_from_hex_slice", 16))
+    chk.ob("%s.R2:sentinel:SpanId" % prefix, "an invalid hex digit is rejected through the 0xff sentinel", hex_use("emit::span::SpanId::try_from_hex_slice", 8))
+    if not span_only:
+      chk.ob("%s.R2:sentinel:TraceFlags" % prefix, "an invalid hex digit is rejected through the 0xff sentinel", hex_use("emit_traceparent::TraceFlags::try_from_hex_slice", 1))
+
+
 def run(chk):
     P = mir.Program("K1")
     chk.use_program(P)
@@ -103,55 +159,7 @@ def run(chk):
     chk.ob("C15.R1:forbidden-constructs", "no str range indexing and no sign-accepting integer parser in fixed-layout parsers", forbidden)
 
     # ---- R2 ---------------------------------------------------------------------------------------------------
-    def table(path):
-        c = P.consts.get(path)
-        if c is None or "v" not in c or "bytes" not in c["v"]:
-            raise mir.AnchorMissing("evaluated constant table %s" % path)
-        return c["v"]["bytes"]
-
-    def hex_tables(enc_p, dec_p, shl_p=None):
-        def f():
-            enc, dec = table(enc_p), table(dec_p)
-            if len(enc) != 16 or len(dec) != 256:
-                return False, "unexpected table sizes %d/%d" % (len(enc), len(dec)), [], None
-            for i in range(16):
-                if dec[enc[i]] != i:
-                    return False, "decode[encode[%d]] = %d: the hex tables are not inverse" % (i, dec[enc[i]]), [], None
-            if bytes(enc) != b"0123456789abcdef":
-                return False, "encode table is %r, not lower-case hex" % bytes(enc), [], None
-            for cch in range(256):
-                ch = chr(cch)
-                want = int(ch, 16) if ch in "0123456789abcdefABCDEF" else 0xff
-                if dec[cch] != want:
-                    return False, "decode[%r] = %d, expected %d (0xff exactly for non-hex bytes, both cases accepted)" % (ch, dec[cch], want), [], None
-            if shl_p:
-                shl = table(shl_p)
-                for i in range(16):
-                    if shl[i] != (i << 4):
-                        return False, "SHL4[%d] = %d, expected %d" % (i, shl[i], i << 4), [], None
-            return True, "", [enc_p, dec_p]
-        return f
-    chk.ob("C15.R2:hex-tables:emit::span", "trace/span id hex tables: decode inverts encode, 0xff exactly for non-hex, nibble shift table exact",
-           hex_tables("emit::span::HEX_ENCODE_TABLE", "emit::span::HEX_DECODE_TABLE", "emit::span::SHL4_TABLE"))
-    chk.ob("C15.R2:hex-tables:TraceFlags", "trace flags hex tables: decode inverts encode, 0xff exactly for non-hex",
-           hex_tables("emit_traceparent::TraceFlags::to_hex::HEX_ENCODE_TABLE", "emit_traceparent::TraceFlags::try_from_hex_slice::HEX_DECODE_TABLE"))
-
-    def hex_use(key, n):
-        def f():
-            b = P.body(key)
-            # the sentinel test: (h1 | h2) == 0xff -> Err
-            ok = False
-            for bb, t in b.switches():
-                so = b.switch_origin(bb)
-                if so[0] == "binop" and so[1] == "Eq" and mir.o_const_value(so[3]) == 0xff and so[2][0] == "binop" and so[2][1] == "BitOr":
-                    ok = True
-            if not ok:
-                return False, "the 0xff sentinel of the decode table is not checked (an invalid hex digit would be accepted)", [], b.span
-            return True, "", [b.span]
-        return f
-    chk.ob("C15.R2:sentinel:TraceId", "an invalid hex digit is rejected through the 0xff sentinel", hex_use("emit::span::TraceId::try_from_hex_slice", 16))
-    chk.ob("C15.R2:sentinel:SpanId", "an invalid hex digit is rejected through the 0xff sentinel", hex_use("emit::span::SpanId::try_from_hex_slice", 8))
-    chk.ob("C15.R2:sentinel:TraceFlags", "an invalid hex digit is rejected through the 0xff sentinel", hex_use("emit_traceparent::TraceFlags::try_from_hex_slice", 1))
+    id_hex_rules(chk, P, "C15")
 
     def level_text():
         d = P.impl_method("core::fmt::Display", "emit::level::Level", "fmt")
